@@ -39,6 +39,36 @@ def body_reduce_rho(E, noise):
     E.prove(E.implies(a1 * 250 >= 1, C.rho >= C.rhoend), 'reduce_rho:rho-not-below-rhoend-when-alpha1>=1/250')
 
 
+def body_restart_npt(E, n):
+    """soft restart that adds points: the point set never grows beyond restarts.max_npt"""
+    from ..state import mk_controller, mk_objfun, EvalLog
+    log = EvalLog()
+    objfun = mk_objfun(E, 1, log)
+    C, M, ghost, params = mk_controller(E, n, 1, n + 1, n + 1, preset='soft-restarts', with_save=False, objfun=objfun)
+    amt = E.int('amt', 0, 3)
+    max_npt = E.int('max_npt', n + 1, n + 4)
+    params.params["restarts.increase_npt"] = True
+    params.params["restarts.increase_npt_amt"] = amt
+    params.params["restarts.max_npt"] = max_npt
+    E.patch_attr(E.get('Controller'), 'geometry_step', lambda self, knew, adelt, number_of_samples, params: None)
+
+    def rnd_dirs(num_pts, delta, lower, upper):
+        num_pts = int(num_pts)
+        D = E.mat('rd', num_pts, n)
+        E.assume(E.all([lower[i] <= D[k, i] for k in range(num_pts) for i in range(n)] + [D[k, i] <= upper[i] for k in range(num_pts) for i in range(n)]))
+        return D
+    E.patch('random_directions_within_bounds', rnd_dirs)
+    nruns = E.int('nruns', 0, None)
+    E.assume(C.last_successful_run <= nruns)
+    npt0 = M.npt()
+    exit_info = C.soft_restart(1, nruns, params)
+    E.prove(E.all([M.npt() <= max_npt, M.num_pts <= max_npt]), 'restart:number-of-points-never-exceeds-restarts.max_npt')
+    E.prove(M.npt() >= npt0, 'restart:points-are-only-added')
+    if exit_info is None:
+        want = E.ite(amt < max_npt - npt0, amt, max_npt - npt0)
+        E.prove(M.npt() == npt0 + want, 'restart:adds-min(increase_npt_amt,room)-points')
+
+
 def _find_update_delta(fn):
     """the `if ratio < params("tr_radius.eta1"): ... elif ... else ...` statement and the snap `if control.delta <= 1.5*control.rho` after it"""
     def is_eta1_test(t):
@@ -123,6 +153,12 @@ def harnesses(tier, seed):
                       assumptions=["solve_main stubbed (records the rhobeg it is given; delta starts as rhobeg)"],
                       expect=['initial-delta<=1e10'], nproc=1))
     cfg = lambda: core.Cfg(fork_queries=True, qtimeout_ms=30000 if tier == 'quick' else 120000)
+    for n in ([1] if tier == 'quick' else [1, 2]):
+        hs.append(Harness("soft-restart-adds-points[n=%d]" % n, 'dfverif.checks.c18', 'body_restart_npt', params=dict(n=n),
+                          cfg=core.Cfg(qtimeout_ms=20000, uflin=True), functions=['controller.Controller.soft_restart', 'model.Model.add_new_point'],
+                          bounds="n=%d, any state, restarts.increase_npt_amt in [0,3], restarts.max_npt in [npt, npt+3]" % n,
+                          assumptions=["geometry_step stubbed (no exit); random directions by contract"],
+                          expect=['restart:number-of-points-never-exceeds-restarts.max_npt'], nproc=None, wall_budget=200))
     for noise in (False, True):
         hs.append(Harness("reduce_rho[noise=%d]" % noise, 'dfverif.checks.c18', 'body_reduce_rho', params=dict(noise=noise), cfg=cfg(),
                           functions=FUNCS, bounds="any 0 < rhoend < rho <= rhobeg <= 1e9, alpha1, alpha2 symbolic in (0,1)",
